@@ -51,3 +51,8 @@ PROPS = {
 NOT_APPLICABLE = {
     'C14': 'panic propagation / unwinding has no semantics in Verus (a reachable panic is a failed obligation) nor in Kani (panic=abort, no catch_unwind, no threads); no pre/postcondition can express "propagates as a panic and drops nothing twice while unwinding"',
 }
+
+SETUP_CMD = 'true'
+HOOK_GUARD = 'none: no hook in /repo; harness modules are injected into a scratch copy of the crate under cfg(kani)'
+HOOK_ENABLE = 'not needed (cargo kani sets cfg(kani) in the scratch copy)'
+HOOK_COMMITS = []
